@@ -89,3 +89,20 @@ MUTANTS += [
     {"name": "c05-amqp-delayed-to-main-queue", "checks": ["C05"],
      "edits": [(AB, "            routing_key=self.qnc(key.queue, delayed=exp is not None),", "            routing_key=self.qnc(key.queue, delayed=False),")]},
 ]
+AC = "repid/connections/rabbitmq/consumer.py"
+MUTANTS += [
+    {"name": "c12-overdue-comparison-flipped", "checks": ["C12", "C19"],
+     "edits": [(PA, "        return datetime.now(tz=self.timestamp.tzinfo) > self.timestamp + self.ttl", "        return datetime.now(tz=self.timestamp.tzinfo) < self.timestamp + self.ttl")]},
+    {"name": "c12-overdue-ge", "checks": ["C12", "C19"],
+     "edits": [(PA, "        return datetime.now(tz=self.timestamp.tzinfo) > self.timestamp + self.ttl", "        return datetime.now(tz=self.timestamp.tzinfo) >= self.timestamp + self.ttl")]},
+    {"name": "c12-amqp-overdue-requeued", "checks": ["C12"],
+     "edits": [(AC, "            await self.broker._channel.basic_nack(message.delivery_tag, requeue=False)\n            logger.debug(\"Message is overdue", "            await self.broker._channel.basic_nack(message.delivery_tag, requeue=True)\n            logger.debug(\"Message is overdue")]},
+    {"name": "c12-mem-overdue-dropped", "checks": ["C12"],
+     "edits": [(MC, "            self._queue.dead.append(msg)\n            return None", "            return None")]},
+    {"name": "c12-mem-overdue-check-removed", "checks": ["C12"],
+     "edits": [(MC, "        if msg.parameters.is_overdue:  # ttl expired", "        if False:  # ttl expired")]},
+    {"name": "c12-redis-dead-consumer-nacks-overdue", "checks": ["C12"],
+     "edits": [(RC, "            if params.is_overdue and self.category == MessageCategory.NORMAL:", "            if params.is_overdue:")]},
+    {"name": "c12-retry-restarts-ttl", "checks": ["C12", "C04"],
+     "edits": [(PA, '            datetime.now() + next_retry,\n        )\n        return copy', '            datetime.now() + next_retry,\n        )\n        object.__setattr__(copy, "timestamp", datetime.now())\n        return copy')]},
+]
